@@ -90,7 +90,7 @@ def evaluate(case, engine, acc=None):
     for tag, run in runs:
         r1 = simrun.model_for(case, run)
         for f in simrun.judge(case, run, r1):
-            if f['oracle'] == 'C05.model':
+            if f['oracle'] in ('C05.model', 'P1'):
                 f = dict(f, msg=f'variant {tag}: ' + f['msg'])
                 fs.append(f)
         if (run.outcome == 'abort') != (r1.verdict == 'abort'):
